@@ -49,7 +49,7 @@ func genDHCPHistory(t *rapid.T) dhcpHistory {
 	h := dhcpHistory{Cfg: dhcpCfg{Net: rapid.IntRange(0, 3).Draw(t, "net"), Mode: rapid.IntRange(1, 3).Draw(t, "mode"), Quiet: rapid.IntRange(0, 3).Draw(t, "quiet") == 0, Debug: rapid.IntRange(0, 5).Draw(t, "debug") == 0}}
 	n := rapid.IntRange(5, 80).Draw(t, "nops")
 	for i := 0; i < n; i++ {
-		op := dOp{K: rapid.SampledFrom([]string{"discover", "discover", "discover", "request", "request", "request", "request", "decline", "release", "capture", "uncapture", "tick", "foreign"}).Draw(t, "k")}
+		op := dOp{K: rapid.SampledFrom([]string{"discover", "discover", "discover", "request", "request", "request", "request", "decline", "release", "capture", "uncapture", "tick", "foreign", "purge"}).Draw(t, "k")}
 		op.C = rapid.SampledFrom([]int{0, 1, 2, 3, 0, 1, 2, 3, 6}).Draw(t, "c")
 		switch op.K {
 		case "discover":
@@ -124,6 +124,31 @@ func TestC11(t *testing.T) {
 	}
 	drv.Prop(t, rec, "random", 3000, 80000, genDHCPHistory,
 		func(tb drv.TB, h dhcpHistory) { runDHCPCase(tb, rec, "C11", "random", h, or, nt) })
+	// lease recycling: rounds in which some clients acquire an address (the first free one, which is the one an expired
+	// lease of somebody else still remembers), then the leases expire (ticker, 5 h) and the session forgets the silent
+	// stations (purge) - in drawn order, so that freed, remembered and re-assigned addresses meet
+	drv.Prop(t, rec, "recycling", 1500, 40000, func(t *rapid.T) dhcpHistory {
+		h := dhcpHistory{Cfg: dhcpCfg{Net: rapid.SampledFrom([]int{0, 1, 3}).Draw(t, "net"), Mode: rapid.SampledFrom([]int{1, 1, 2}).Draw(t, "mode")}}
+		for r := rapid.IntRange(2, 4).Draw(t, "rounds"); r > 0; r-- {
+			for _, c := range rapid.Permutation([]int{0, 1, 2, 4, 6}).Draw(t, "order")[:rapid.IntRange(1, 3).Draw(t, "n")] {
+				h.Ops = append(h.Ops, dOp{K: "discover", C: c, XID: r, Req: rapid.SampledFrom([]string{"", "free", "free", "other"}).Draw(t, "req")})
+				if rapid.IntRange(0, 3).Draw(t, "select") != 0 {
+					h.Ops = append(h.Ops, dOp{K: "request", C: c, Kind: "sel-ours", Req: "offered"})
+				}
+			}
+			for _, k := range rapid.Permutation([]string{"tick", "purge", "discover"}).Draw(t, "between")[:rapid.IntRange(1, 3).Draw(t, "nb")] {
+				switch k {
+				case "tick":
+					h.Ops = append(h.Ops, dOp{K: "tick", D: 1})
+				case "purge":
+					h.Ops = append(h.Ops, dOp{K: "purge"})
+				case "discover":
+					h.Ops = append(h.Ops, dOp{K: "discover", C: rapid.SampledFrom([]int{0, 1, 2, 4, 6}).Draw(t, "c"), XID: 3, Req: rapid.SampledFrom([]string{"", "other", "free"}).Draw(t, "req")})
+				}
+			}
+		}
+		return h
+	}, func(tb drv.TB, h dhcpHistory) { runDHCPCase(tb, rec, "C11", "recycling", h, or, nt) })
 	// pool exhaustion and cursor wrap-around on the 14-address pool
 	drv.Prop(t, rec, "exhaustion", 300, 6000, func(t *rapid.T) dhcpHistory {
 		h := dhcpHistory{Cfg: dhcpCfg{Net: 0, Mode: rapid.IntRange(1, 3).Draw(t, "mode")}}
